@@ -1,5 +1,151 @@
-"""C23: EnsureTreeState + security backends (stub while the directory part is brought up)."""
+"""C23, tree variant: real osutil.EnsureTreeState runs judged by TraceSyncTree.tla (SyncTree.tla)."""
+import random
+
+from lib import tlc
+from lib.common import InfraError, Violation
+from props import _syncdir as S
+
+
+def tree_case(k, rnd, i, runs):
+    subs = sorted(k["SubDirs"])
+    dirs = ["."] + subs
+    m, u = sorted(k["Managed"]), sorted(k["Unmanaged"])
+    ftok = ["f:%s:%s" % (c, p) for c in k["Contents"] for p in k["Perms"]]
+    btok = ["bad:%s" % b for b in k["BadKinds"]]
+    init, des = {}, {}
+    bad_used = False
+    for d in dirs:
+        exists = d == "." or rnd.random() < 0.7
+        init[d + "/"] = "dir" if exists else "nodir"
+        for n in m:
+            init["%s/%s" % (d, n)] = rnd.choice(k["TreeEntryTok"]) if exists else "none"
+        for n in u:
+            init["%s/%s" % (d, n)] = rnd.choice(k["UnmanagedTok"]) if exists and rnd.random() < 0.6 else "none"
+        listed = rnd.random() < 0.6
+        des[d + "/"] = "listed" if listed else "absent"
+        for n in m:
+            key = "%s/%s" % (d, n)
+            des[key] = "absent"
+            if listed and rnd.random() < 0.75:
+                if not bad_used and rnd.random() < 0.2:
+                    des[key] = rnd.choice(btok)
+                    bad_used = True
+                elif init[key] in ftok and rnd.random() < 0.3:
+                    des[key] = init[key]
+                else:
+                    des[key] = rnd.choice(ftok)
+        for n in u:
+            des["%s/%s" % (d, n)] = "absent"
+    return {"case": "t%d" % i, "tree": True, "init": init, "des": des, "globs": rnd.choice([0, 2]),
+            "flavour": rnd.randrange(3), "runs": runs}
+
+
+def tree_key(c, o=None):
+    ini = ",".join("%s=%s" % (n, c["init"][n]) for n in sorted(c["init"]) if c["init"][n] not in ("none", "dir"))
+    des = ",".join("%s=%s" % (n, c["des"][n]) for n in sorted(c["des"]) if c["des"][n] != "absent")
+    s = "EnsureTreeState{init:%s;want:%s" % (ini, des)
+    if o is not None:
+        got = ",".join("%s=%s" % (n, o["dir"][n]) for n in sorted(o["dir"]) if o["dir"][n] not in ("none", "dir"))
+        s += ";got:err=%d,%s;changed=%s;removed=%s" % (1 if o["err"] else 0, got, "+".join(o["changed"]), "+".join(o["removed"]))
+        if o.get("extra"):
+            s += ";extra=%s" % "+".join(o["extra"])
+    return s + "}"
+
+
+def tree_design(ctx):
+    """TLC on the tree model itself (+ in the thorough tier its vacuity monitors, which must be violated)"""
+    cfg = ctx.pick("SyncTree_mc_quick.cfg", "SyncTree_mc.cfg")
+    mc = tlc.run(ctx, "SyncTree", cfg, workers=ctx.pick(2, 8), timeout=ctx.pick(900, 1800), name="tlc_SyncTree")
+    if not mc.ok:
+        raise InfraError("spec-level counterexample in %s: %s" % (cfg, mc.summary()))
+    if not ctx.quick:
+        for vcfg, inv in (("SyncTree_vac1.cfg", "NoTreeFailClosed"), ("SyncTree_vac2.cfg", "NoUnrelatedDirRemoved")):
+            v = tlc.run(ctx, "SyncTree", vcfg, workers=2, timeout=900, name="tlc_" + inv)
+            if not (v.kind == "invariant" and v.name == inv):
+                raise InfraError("vacuity guard: %s was expected to be violated (%s)" % (inv, v.summary()))
+    return {"mc": mc, "cfg": cfg}
 
 
 def run_tree(ctx, binary, rnd):
-    return {"violations": [], "drift": [], "cases": 0, "execs": 0, "coverage": {}}
+    k = S.cfg_constants("TraceSyncTree.cfg")
+    runs = ctx.pick(3, 5)
+    cases = [tree_case(k, rnd, i, runs) for i in range(ctx.pick(200, 3000))]
+    obs, execs = S.run_real(ctx, binary, cases, "real_tree")
+    if len(obs) != len(cases):
+        raise InfraError("tree driver returned %d results for %d cases" % (len(obs), len(cases)))
+    violations, drift = [], []
+    lines = []
+    for r in obs:
+        for o in r["outs"]:
+            if o.get("panic"):
+                violations.append(Violation(tree_key(r) + " panic", "EnsureTreeState panicked: %s" % o["panic"], {"case": r}))
+        r["outs"] = [o for o in r["outs"] if not o.get("panic")]
+        lines.append(S.strip_for_tlc(r))
+    verdicts = S.tlc_judge(ctx, "TraceSyncTree", "TraceSyncTree.cfg", lines, ctx.pick(2, 8))
+    classes = {}
+    dirgone = []
+    multi_seen = 0
+    for r, v in zip(obs, verdicts):
+        if len(r["outs"]) > 1:
+            multi_seen += 1
+        for j, o in enumerate(r["outs"]):
+            cls = ("err" if o["err"] else "ok") + ("/writefail" if v["wfail"] else "")
+            classes[cls] = classes.get(cls, 0) + 1
+            if not v["post"][j] or o["extra"]:
+                violations.append(Violation(
+                    tree_key(r, o), "EnsureTreeState: %s (err=%s errmsg=%r)" % (
+                        "leftover entries %s" % o["extra"] if o["extra"] and v["post"][j] else "statement violated",
+                        o["err"], o.get("errmsg", "")),
+                    {"case": {x: r[x] for x in ("case", "init", "des", "globs", "flavour")}, "outcome": o}))
+            elif not v["member"][j]:
+                drift.append(tree_key(r, o))
+            if v["dirgone"][j]:
+                dirgone.append(tree_key(r, o))
+    for need in ("ok", "err/writefail"):
+        if classes.get(need, 0) == 0 and not violations:
+            raise InfraError("vacuity guard (tree): no real outcome of class %r" % need)
+    return {"violations": violations, "drift": drift, "cases": len(cases), "execs": execs,
+            "coverage": {"cases": len(cases), "real_executions": execs, "real_outcome_classes": classes,
+                         "cases_where_several_outcomes_were_observed": multi_seen,
+                         "unrelated_empty_dir_removed_observations": len(dirgone),
+                         "unrelated_empty_dir_removed_example": dirgone[:1]}}
+
+
+# ---------------------------------------------------------------- security backends, end to end
+def run_backends(ctx):
+    """One success and one failing-write scenario through the exported Setup of the apparmor and seccomp
+    backends (overlay tests in their own test packages); judged by TraceSyncDir as partial observations."""
+    import os
+    from lib import common, goharness
+    d = ctx.subdir("backends")
+    outp = os.path.join(d, "e2e.ndjson")
+    for pkg in ("apparmor", "seccomp"):
+        tb = goharness.overlay_test_build(ctx, "interfaces/" + pkg,
+                                          [os.path.join(common.HARNESS, "overlay", pkg, "zz_verif_c23_test.go")])
+        rc, o = goharness.run_test_bin(ctx, tb, "^Test$", env={"VERIF_OUT": outp}, args=["-check.f", "TestVerifC23"],
+                                       cwd=os.path.join(common.REPO, "interfaces", pkg), timeout=600)
+        goharness.check_driver(rc, o, "%s backend e2e driver" % pkg)
+    obs = common.read_ndjson(outp)
+    if len(obs) != 4:
+        raise InfraError("backend e2e drivers produced %d observations, expected 4" % len(obs))
+    lines = [{"case": r["case"], "init": r["init"], "des": r["des"], "partial": True,
+              "outs": [{"dir": r["dir"], "changed": [], "removed": [], "err": bool(r["err"])}]} for r in obs]
+    verdicts = S.tlc_judge(ctx, "TraceSyncDir", "TraceSyncDir.cfg", lines, 1)
+    violations, drift, seen = [], [], {}
+    for r, v in zip(obs, verdicts):
+        if not v["indom"]:
+            raise InfraError("backend e2e case outside the spec's domain: %s" % r)
+        key = "%s backend Setup{%s;want:%s;got:err=%d,%s%s}" % (
+            r["backend"], ",".join("%s=%s" % (r["names"][a], t) for a, t in sorted(r["init"].items()) if t != "none"),
+            ",".join("%s=%s" % (r["names"][a], t) for a, t in sorted(r["des"].items()) if t != "absent"),
+            1 if r["err"] else 0, ",".join("%s=%s" % (r["names"][a], t) for a, t in sorted(r["dir"].items()) if t != "none"),
+            ";extra=" + "+".join(r["extra"]) if r["extra"] else "")
+        seen[r["case"]] = {"err": r["err"], "dir": {r["names"][a]: t for a, t in r["dir"].items()}}
+        if not v["post"][0] or r["extra"]:
+            violations.append(Violation(key, "%s backend: profile directory not synchronised as stated (err=%r)" % (
+                r["backend"], r["errmsg"]), r))
+        elif not v["member"][0]:
+            drift.append(key)
+        if r["case"].endswith("failclosed") and not (v["wfail"] and r["err"]) and not violations:
+            raise InfraError("backend e2e: the failing-write scenario did not fail (%s)" % r["case"])
+    return {"violations": violations, "drift": drift, "cases": len(obs), "observations": seen}
